@@ -10,6 +10,7 @@ import json
 import argparse
 import importlib
 import traceback
+import time
 
 sys.path.insert(0, os.path.dirname(os.path.dirname(os.path.abspath(__file__))))
 from harness import core  # noqa
@@ -31,6 +32,18 @@ def main():
         traceback.print_exc()
         return 2
     ctx = core.Ctx(a.pid, tier, seed)
+    # overall time limit: an implementation that does not return (an endless loop in changed code) must end in a verdict
+    import signal
+    limit = int(os.environ.get('VERIF_WATCHDOG', '1500' if tier == 'quick' else '14400'))
+
+    def _watchdog(sig, frm):
+        raise core.Watchdog('the check did not finish within %d s' % limit)
+    try:
+        signal.signal(signal.SIGALRM, _watchdog)
+        signal.alarm(limit)
+        core.DEADLINE[0] = time.time() + limit
+    except Exception:
+        pass
     try:
         if a.replay:
             rp = json.loads(open(a.replay).read())
@@ -53,6 +66,19 @@ def main():
         # the model side cannot run: a broken obligation, never silently green
         ctx.oblige('lean driver', False, 'build', str(e))
         return core.finish(ctx, mod)
+    except core.Watchdog as e:
+        traceback.print_exc()
+        tb = traceback.extract_tb(e.__traceback__)
+        tree = os.path.realpath(os.environ.get('PYDL_REPO', '/repo')) + os.sep
+        inside = [f for f in tb if os.path.realpath(f.filename).startswith(tree)]
+        if inside:
+            # the time ran out INSIDE the code under test: it did not return on an input of this check
+            ctx.disagree('no-return', {'stream': 'no-return', 'where': ['%s:%d %s' % (f.filename, f.lineno, f.name) for f in tb[-5:]]},
+                         'still running after %d s (interrupted inside %s)' % (limit, inside[-1].name),
+                         'the model answers every generated case at once; on the unchanged tree the whole check takes a fraction of that time')
+            signal.alarm(0)
+            return core.finish(ctx, mod)
+        return 2
     except Exception as e:
         traceback.print_exc()
         # An exception that escapes from the code under test on an input every generator of this check expects it to
@@ -68,6 +94,10 @@ def main():
             return core.finish(ctx, mod)
         return 2
     finally:
+        try:
+            signal.alarm(0)
+        except Exception:
+            pass
         ctx.cleanup()
 
 
